@@ -119,6 +119,31 @@ class Check:
             return False, out, path
         return None, out, path  # build failure or other trouble: inconclusive
 
+    def coverage_diff(self, pkg_rel, test_src, file_suffix, env_a, env_b, name='cover'):
+        """run the same in-package test twice under -covermode=count with two different secret inputs (passed through
+        the environment) and return the coverage blocks of `file_suffix` whose execution counts differ"""
+        path = os.path.join(self.outdir, name + '_test.go')
+        open(path, 'w').write(test_src)
+        virt = os.path.join(REPO, pkg_rel, 'zz_verif_%s_test.go' % name)
+        ovp = os.path.join(self.outdir, name + '_overlay.json')
+        json.dump({'Replace': {virt: path}}, open(ovp, 'w'))
+        profs = []
+        for tag, env in (('a', env_a), ('b', env_b)):
+            prof = os.path.join(self.outdir, '%s_%s.cov' % (name, tag))
+            cmd = ['go', 'test', '-vet=off', '-count=1', '-run', 'TestVerifReplay', '-covermode=count', '-coverprofile', prof, '-overlay', ovp, './' + pkg_rel]
+            r = subprocess.run(cmd, cwd=REPO, env=dict(GOENV, **env), capture_output=True, text=True, timeout=300)
+            if r.returncode != 0 or not os.path.exists(prof):
+                return None, (r.stdout + r.stderr)[-300:], path
+            d = {}
+            for line in open(prof):
+                if file_suffix in line:
+                    blk, _, cnt = line.rpartition(' ')
+                    d[blk] = int(cnt)
+            profs.append(d)
+        diff = sorted(k for k in profs[0] if profs[0].get(k) != profs[1].get(k))
+        open(os.path.join(self.outdir, name + '.cmd'), 'w').write('cd %s && VERIF_SECRET=<a|b> go test -covermode=count -coverprofile x.cov -run TestVerifReplay -overlay %s ./%s  # compare per-block counts\n' % (REPO, ovp, pkg_rel))
+        return diff, '', path
+
     # -------------------------------------------------------------- finish
     def finish(self):
         wall = time.time() - self.t0
